@@ -259,51 +259,7 @@ mod imp {
         }
         let sweep_ops = AtomicU64::new(0);
         par_map_fine(&caps_swept, |&cap| {
-            let r = guarded(|| {
-                let mut t = Table::new(cap);
-                let extra = 5usize;
-                let mut problems: Vec<String> = Vec::new();
-                for k in 0..(cap + extra) as u64 {
-                    t.put(k, k ^ 0x5555);
-                    let n = (k + 1) as usize;
-                    // judged at every power of two, around the capacity, and at the end
-                    if n.is_power_of_two() || n + 2 >= cap {
-                        let want = n.min(cap);
-                        if t.len() != want && problems.len() < 3 {
-                            problems.push(format!("after {} distinct puts len() = {} (capacity {}), expected {}", n, t.len(), cap, want));
-                        }
-                        if n <= cap && t.get(0) != Some(0x5555) && problems.len() < 3 {
-                            problems.push(format!("oldest key evicted after {} distinct puts although capacity is {}", n, cap));
-                        }
-                    }
-                }
-                for k in 0..(cap + extra) as u64 {
-                    if k < extra as u64 || k + 3 >= (cap + extra) as u64 || k.is_power_of_two() {
-                        let want = if k < extra as u64 { None } else { Some(k ^ 0x5555) };
-                        if t.get(k) != want && problems.len() < 3 {
-                            problems.push(format!("capacity {}: after {} distinct puts get({}) = {:?}, expected {:?}", cap, cap + extra, k, t.get(k), want));
-                        }
-                    }
-                }
-                let lf = t.load_factor();
-                if (lf - 1.0).abs() > 1e-6 && problems.len() < 3 {
-                    problems.push(format!("capacity {}: full table reports load factor {}", cap, lf));
-                }
-                // overwrite of present keys in the full table must not evict, clear empties
-                let (q0, _) = t.snapshot();
-                let oldest = q0.first().copied().unwrap_or(0);
-                let newest = (cap + extra - 1) as u64;
-                t.put(oldest, 1);
-                t.put(newest, 2);
-                if t.len() != cap || t.get(oldest) != Some(if oldest == newest { 2 } else { 1 }) || t.get(newest) != Some(2) {
-                    problems.push(format!("capacity {}: overwriting present keys in a full table changed its contents (len {})", cap, t.len()));
-                }
-                t.clear();
-                if t.len() != 0 || t.get(oldest).is_some() {
-                    problems.push(format!("capacity {}: clear left entries", cap));
-                }
-                problems
-            });
+            let r = guarded(|| sweep_problems(cap));
             sweep_ops.fetch_add((2 * (cap + 5)) as u64, std::sync::atomic::Ordering::Relaxed);
             match r {
                 Ok(problems) => {
@@ -315,6 +271,36 @@ mod imp {
                 Err(m) => rep.report("panic:capacity_sweep".to_string(), json!({"kind": "capacity_sweep", "capacity": cap, "panic": m})),
             }
         });
+        // declared-capacity probe: capacities of EVERY magnitude up to 2^62 cannot be filled, but what
+        // the table does with the configured number shows without filling it: the fill level it
+        // reports (entries / configured capacity) and that nothing is evicted below the capacity
+        let t2 = Instant::now();
+        let mut declared: Vec<usize> = Vec::new();
+        for k in 0..=62u32 {
+            for d in [-1i64, 0, 1] {
+                let c = (1i64 << k) + d;
+                if c >= 1 {
+                    declared.push(c as usize);
+                }
+            }
+        }
+        declared.extend([10_000_000usize, 3_728_270, 16_777_217, 100_000_000, usize::MAX / 2, usize::MAX]);
+        declared.sort();
+        declared.dedup();
+        let probe_ops = AtomicU64::new(0);
+        par_map_fine(&declared, |&cap| {
+            let r = guarded(|| declared_probe(cap));
+            probe_ops.fetch_add(cap.min(3000) as u64 + 3, std::sync::atomic::Ordering::Relaxed);
+            match r {
+                Ok(problems) => {
+                    for pr in problems {
+                        rep.report(format!("declared_capacity:{}", pr.split(' ').take(3).collect::<Vec<_>>().join("_")), json!({"kind": "declared_capacity", "capacity": cap, "problem": pr}));
+                    }
+                }
+                Err(m) => rep.report("panic:declared_capacity".to_string(), json!({"kind": "declared_capacity", "capacity": cap, "panic": m})),
+            }
+        });
+        let declared_secs = t2.elapsed().as_secs_f64();
         let mut cov = Coverage::new();
         cov.states = states;
         cov.transitions = transitions + unrolled;
@@ -322,6 +308,7 @@ mod imp {
         cov.exhaustive = true;
         cov.set("stateright_bfs", json!(per_cap));
         cov.set("capacity_sweep", json!({"capacities": caps_swept, "operations": sweep_ops.load(std::sync::atomic::Ordering::Relaxed), "secs": t1.elapsed().as_secs_f64(), "history": "capacity+5 distinct puts, lookups of the first / last / power-of-two keys, overwrites in the full table, clear"}));
+        cov.set("declared_capacity_probe", json!({"capacities": declared.len(), "largest": declared.last(), "operations": probe_ops.load(std::sync::atomic::Ordering::Relaxed), "secs": declared_secs, "history": "min(capacity+3, 3000) distinct puts; len, reported fill level against entries / configured capacity, oldest key still present"}));
         cov.set("unrolled_histories_without_dedup", json!({"capacity": ucap, "depth": udepth, "histories": unrolled, "secs": t0.elapsed().as_secs_f64()}));
         cov.set("explanation", json!("reachable state space of the real table (deduplicated on its own queue+map contents) explored to fixpoint for each capacity with capacity+2 keys and 2 values; the table only compares keys for equality, so capacity+2 keys let 'present', 'evicted and re-inserted' and 'never seen' coexist"));
         cov.samples = SAMPLES.lock().unwrap().clone();
@@ -365,10 +352,96 @@ mod imp {
             .collect::<Vec<_>>())
     }
 
+    /// what the table does with a configured capacity it cannot be filled to
+    fn declared_probe(cap: usize) -> Vec<String> {
+        let mut problems: Vec<String> = Vec::new();
+        let mut t = Table::new(cap);
+        let n = cap.saturating_add(3).min(3000);
+        for k in 0..n as u64 {
+            t.put(k, !k);
+        }
+        let want_len = n.min(cap);
+        if t.len() != want_len {
+            problems.push(format!("after {} distinct puts len() = {}, expected {}", n, t.len(), want_len));
+        }
+        let want_lf = want_len as f32 / cap as f32;
+        let lf = t.load_factor();
+        if (lf - want_lf).abs() > want_lf * 1e-5 {
+            problems.push(format!("fill level reported as {:e} with {} entries and configured capacity {} (expected {:e})", lf, t.len(), cap, want_lf));
+        }
+        if n <= cap && t.get(0) != Some(!0u64) {
+            problems.push(format!("oldest key missing after {} puts although the configured capacity is {}", n, cap));
+        }
+        problems
+    }
+
+    /// the canonical fill-and-overflow history on one capacity
+    fn sweep_problems(cap: usize) -> Vec<String> {
+        let mut t = Table::new(cap);
+        let extra = 5usize;
+        let mut problems: Vec<String> = Vec::new();
+        for k in 0..(cap + extra) as u64 {
+            t.put(k, k ^ 0x5555);
+            let n = (k + 1) as usize;
+            // judged at every power of two, around the capacity, and at the end
+            if n.is_power_of_two() || n + 2 >= cap {
+                let want = n.min(cap);
+                if t.len() != want && problems.len() < 3 {
+                    problems.push(format!("after {} distinct puts len() = {} (capacity {}), expected {}", n, t.len(), cap, want));
+                }
+                if n <= cap && t.get(0) != Some(0x5555) && problems.len() < 3 {
+                    problems.push(format!("oldest key evicted after {} distinct puts although capacity is {}", n, cap));
+                }
+            }
+        }
+        for k in 0..(cap + extra) as u64 {
+            if k < extra as u64 || k + 3 >= (cap + extra) as u64 || k.is_power_of_two() {
+                let want = if k < extra as u64 { None } else { Some(k ^ 0x5555) };
+                if t.get(k) != want && problems.len() < 3 {
+                    problems.push(format!("capacity {}: after {} distinct puts get({}) = {:?}, expected {:?}", cap, cap + extra, k, t.get(k), want));
+                }
+            }
+        }
+        let lf = t.load_factor();
+        if (lf - 1.0).abs() > 1e-6 && problems.len() < 3 {
+            problems.push(format!("capacity {}: full table reports load factor {}", cap, lf));
+        }
+        // overwrite of present keys in the full table must not evict, clear empties
+        let (q0, _) = t.snapshot();
+        let oldest = q0.first().copied().unwrap_or(0);
+        let newest = (cap + extra - 1) as u64;
+        t.put(oldest, 1);
+        t.put(newest, 2);
+        if t.len() != cap || t.get(oldest) != Some(if oldest == newest { 2 } else { 1 }) || t.get(newest) != Some(2) {
+            problems.push(format!("capacity {}: overwriting present keys in a full table changed its contents (len {})", cap, t.len()));
+        }
+        t.clear();
+        if t.len() != 0 || t.get(oldest).is_some() {
+            problems.push(format!("capacity {}: clear left entries", cap));
+        }
+        problems
+    }
+
     pub fn replay_case(case: &Value) -> i32 {
         let started = Instant::now();
         let rep = Reporter::new("C18");
         let cap = case["capacity"].as_u64().unwrap_or(1) as usize;
+        let kind = case["kind"].as_str().unwrap_or("");
+        if kind == "declared_capacity" || kind == "capacity_sweep" {
+            match guarded(|| if kind == "declared_capacity" { declared_probe(cap) } else { sweep_problems(cap) }) {
+                Ok(problems) => {
+                    for pr in problems {
+                        println!("{}", pr);
+                        rep.report(format!("{}:{}", kind, pr.split(' ').take(3).collect::<Vec<_>>().join("_")), json!({"kind": kind, "capacity": cap, "problem": pr}));
+                    }
+                }
+                Err(m) => rep.report(format!("panic:{}", kind), json!({"kind": kind, "capacity": cap, "panic": m})),
+            }
+            println!("replay: {} violating case(s) reproduced", rep.violation_count());
+            let mut cov = Coverage::new();
+            cov.states = 1;
+            return finish(&rep, Tier::Quick, cov, started);
+        }
         let mut hist = Vec::new();
         for o in case["ops"].as_array().cloned().unwrap_or_default() {
             let name = o[0].as_str().unwrap_or("");
